@@ -198,6 +198,7 @@ class P:
 
 def parse(s):
     s = s.replace('(anonymous namespace)::', 'anon::')
+    s = re.sub(r"\((?:unnamed|anonymous) (?:struct|class|union) at [^:()]*:(\d+):(\d+)\)", r"__unnamed_L\1C\2", s)
     p = P(tokenize(s), s)
     t = p.parse_type()
     if p.peek() is not None:
